@@ -485,7 +485,7 @@ def install2(ip):
         (re.compile(r'^UnsafeCell::new$'), m_unsafecell_new), (re.compile(r'^UnsafeCell::get$'), m_unsafecell_get),
         (re.compile(r'^Cell::new$'), m_cell_new), (re.compile(r'^Cell::get$'), m_cell_get), (re.compile(r'^Cell::set$'), m_cell_set),
         (re.compile(r'^<Vec<.*> as Deref(Mut)?>::deref(_mut)?$'), m_vec_deref),
-        (re.compile(r'impl \[.*\]>::iter$'), m_slice_iter), (re.compile(r'^<std::slice::Iter<.*> as Iterator>::next$'), m_slice_iter_next),
+        (re.compile(r'impl \[.*\]>::iter(_mut)?$'), m_slice_iter), (re.compile(r'^<std::slice::Iter(Mut)?<.*> as Iterator>::next$'), m_slice_iter_next),
         (re.compile(r'^Option::map$'), m_option_map), (re.compile(r'^Vec::remove$'), m_vec_remove),
         (re.compile(r'^std::mem::replace$'), m_mem_replace),
         (re.compile(r'^Arc::new$'), m_arc_new), (re.compile(r'^<Arc<.*> as Deref>::deref$'), m_arc_deref),
@@ -597,6 +597,7 @@ def m_concat(ip, c, a):
     lst = unref(a[0]); items = lst if isinstance(lst, list) else lst.fields[0].v
     return sconcat([val_of_strlike(x.v) for x in items])
 def m_mem_forget(ip, c, a): return UNIT
+def m_mem_drop(ip, c, a): ip.drop_value(a[0]); return UNIT
 def m_trim(ip, c, a):
     s = val_of_strlike(a[0])
     if not is_sym(s): return s.strip()
@@ -607,7 +608,7 @@ def install4(ip):
     ip.pattern_models = [
         (re.compile(r'^<Arguments<.*> as ToString>::to_string$'), m_args_to_string),
         (re.compile(r'^Formatter::write_fmt$'), m_formatter_write_fmt), (re.compile(r'^Formatter::write_str$'), m_formatter_write_str),
-        (re.compile(r'impl \[.*\]>::concat$'), m_concat), (re.compile(r'^std::mem::forget$'), m_mem_forget),
+        (re.compile(r'impl \[.*\]>::concat$'), m_concat), (re.compile(r'^std::mem::forget$'), m_mem_forget), (re.compile(r'^std::mem::drop$|^drop$'), m_mem_drop),
         (re.compile(r'impl str>::trim$'), m_trim),
     ] + ip.pattern_models
 
